@@ -25,6 +25,8 @@ def pieces(sid, k, n, first_table=None):
         return {1: [f"SELECT * FROM x{s};"], 2: [f"SELECT a{s},", f"b FROM x{s};"], 3: [f"SELECT a{s}", f"FROM x{s}", f"WHERE a{s} > 1;"]}[n]
     if k == "insert":
         return {1: [f"INSERT INTO x{s} VALUES ({s}, 2);"], 2: [f"INSERT INTO x{s}", f"VALUES ({s}, 2);"]}[n]
+    if k == "upsert":
+        return {2: [f"INSERT INTO x{s} (id, q) VALUES ({s}, 5) ON CONFLICT (id) DO UPDATE", f"SET q{s} = EXCLUDED.q{s};"]}[n]
     if k == "grant":
         return {1: [f"GRANT ALL ON x{s} TO u{s};"]}[n]
     if k == "go":
